@@ -46,7 +46,7 @@ Definition tab_rows : list (config * srv) :=
   flat_map (fun polssl : policy * bool =>
   flat_map (fun bh : bool * decision * hs_oracle =>
   map (fun ad =>
-    (mkCfg (fst polssl) (snd polssl) a None h false true true true true,
+    (mkCfg (fst polssl) (snd polssl) a None h false true true true true false,
      srv0 [DOk; DOk; snd (fst bh); DOk; ad; ad] None (tab_caps l (fst (fst bh))) (tab_caps l false) (snd bh))) tab_auth_dec)
   tab_behaviours)
   [(Mandatory, false); (Opportunistic, false); (NoTLS, false); (Mandatory, true)])
